@@ -31,8 +31,9 @@ Go functions followed: reader/reader.go `GetObject`, `getUncompressedObject`,
 internal/filters/flate.go `getIntParam`; pages/pages.go `Count`, `loadPages`,
 `traversePageNode`, `withInherited`, `Page.Resources`, `Page.Contents`; text/extractor.go
 `RegisterFontsFromResources`, `processOperation`, `showText`, `showTextArray`;
-font/type1.go `NewType1Font`, `parseEncoding`, `parseWidths`; font/truetype.go
-`NewTrueTypeFont`; font/cidfont.go `NewType0Font`, `parseDescendantFont`, `NewCIDFont`,
+font/type1.go `NewType1Font`, `parseEncoding`, `applyEncodingDifferences`,
+`parseEncodingDifferences` (fix b3a0e07), `parseWidths`; font/truetype.go `NewTrueTypeFont`,
+`parseEncoding`; font/cidfont.go `NewType0Font`, `parseDescendantFont`, `NewCIDFont`,
 `parseCIDSystemInfo`; extractor.go `Fragments`, `resolvePages`.
 
 Resource bounds of the code (repairs made for property C02) that this model carries, with the
@@ -540,27 +541,47 @@ def type0Encoding (fd : Dict) : Str :=
   | some e => extractName (some e)
   | none => kIdentityH
 
-/-- `parseEncoding` of Type1 (`std = StandardEncoding`) and TrueType (`std = WinAnsiEncoding`,
-no `/Differences` handling); `none` = error, the font is not registered. `NewFont` presets
-`WinAnsiEncoding`, which a non-name `/BaseEncoding` leaves in place. -/
-def simpleEncoding (res : Res) (fd : Dict) (std : Str) (diffs : Bool) : Option Str :=
+/-- the loop of `parseEncodingDifferences` (font/type1.go, fix b3a0e07; ISO 32000-1 9.6.6.1):
+an integer sets the current code, a name redefines the current code - if it is a byte - and
+advances it: `differences[code] = r` when `glyphNameToUnicode` knows the name,
+`delete(differences, code)` when it does not (the base encoding stays in charge); anything
+else is an error (`none`). Go's `int` is 64 bits wide and wraps around; a wrapped code is far
+outside 0..255 on either side, so the unbounded `Int` decides the same. -/
+def parseDiffsLoop : List Obj → Int → FontDecode.Diffs → Option FontDecode.Diffs
+  | [], _, acc => some acc
+  | .int v :: rest, _, acc => parseDiffsLoop rest v acc
+  | .name n :: rest, code, acc =>
+    parseDiffsLoop rest (code + 1)
+      (if 0 ≤ code ∧ code ≤ 255 then (code.toNat, GlyphNames.glyphRune n) :: acc else acc)
+  | _ :: _, _, _ => none
+
+/-- `parseEncodingDifferences(diffs)` -/
+def parseDifferences (xs : List Obj) : Option FontDecode.Diffs := parseDiffsLoop xs 0 []
+
+/-- `parseEncoding` of Type1 (`std = StandardEncoding`, `strict`: an unresolvable
+`/Differences` reference or an array holding anything but integers and names fails the font)
+and of TrueType (`std = WinAnsiEncoding`; a `/Differences` entry that cannot be read is
+ignored, as the whole entry was before b3a0e07): the base encoding name left in
+`Font.Encoding` and `Font.Differences`; `none` = error, the font is not registered. `NewFont`
+presets `WinAnsiEncoding`, which a non-name `/BaseEncoding` leaves in place. -/
+def simpleEncoding (res : Res) (fd : Dict) (std : Str) (strict : Bool) : Option (Str × FontDecode.Diffs) :=
   match dget fd kEncoding with
-  | none => some std
+  | none => some (std, [])
   | some e =>
     match resolve res e with
-    | .ok (.obj (.name n)) => some n
+    | .ok (.obj (.name n)) => some (n, [])
     | .ok (.obj (.dict ed)) =>
       let enc := baseEncoding ed std
-      if diffs then
-        match dget ed kDifferences with
-        | none => some enc
-        | some dobj =>
-          match resolve res dobj with
-          | .error _ => none
-          | .ok (.obj (.arr xs)) =>
-            if xs.all (fun o => match o with | .int _ => true | .name _ => true | _ => false) then some enc else none
-          | .ok _ => some enc
-      else some enc
+      match dget ed kDifferences with
+      | none => some (enc, [])
+      | some dobj =>
+        match resolve res dobj with
+        | .error _ => if strict then none else some (enc, [])
+        | .ok (.obj (.arr xs)) =>
+          match parseDifferences xs with
+          | some ds => some (enc, ds)
+          | none => if strict then none else some (enc, [])
+        | .ok _ => some (enc, [])
     | _ => none
 
 /-- `parseWidths`: a `/Widths` entry must resolve to an array of numbers -/
@@ -611,14 +632,14 @@ def parseFont (res : Res) (o : Obj) : Option FontDecode.Font :=
     | some (.name st) =>
       if st = kType1 then
         match simpleEncoding res fd kStandardEncoding true with
-        | some enc => if widthsOk res fd then some ⟨toUnicodeOf res fd, enc⟩ else none
+        | some (enc, ds) => if widthsOk res fd then some ⟨toUnicodeOf res fd, enc, ds⟩ else none
         | none => none
       else if st = kTrueType then
         match simpleEncoding res fd kWinAnsiEncoding false with
-        | some enc => if widthsOk res fd then some ⟨toUnicodeOf res fd, enc⟩ else none
+        | some (enc, ds) => if widthsOk res fd then some ⟨toUnicodeOf res fd, enc, ds⟩ else none
         | none => none
       else if st = kType0 then
-        if descendantOk res fd then some ⟨toUnicodeOf res fd, type0Encoding fd⟩ else none
+        if descendantOk res fd then some ⟨toUnicodeOf res fd, type0Encoding fd, []⟩ else none
       else none
     | _ => none
   | _ => none
@@ -656,7 +677,7 @@ def fontsOf (res : Res) (rd : Option Dict) : Option Dict :=
       | _ => none
 
 /-- the font `Tf` registers for a name nothing is registered under -/
-def defaultFont : FontDecode.Font := ⟨none, kWinAnsiEncoding⟩
+def defaultFont : FontDecode.Font := ⟨none, kWinAnsiEncoding, []⟩
 
 /-! ### content interpretation -/
 
@@ -673,6 +694,22 @@ def decodeShown (res : Res) (ext : Ext) (fonts : Option Dict) (cur : Str) (data 
     if cur = [] then .ok (FontDecode.showTextNoFont ext.nfc data)
     else
       match FontDecode.decodeString ext.nfc defaultFont data with
+      | some s => .ok s
+      | none => .error .unsupported
+
+/-- `showText` before fix b3a0e07: the same registration, but `DecodeString` used the base
+encoding alone (`FontDecode.decodeStringOld`: the `/Differences` the font dictionary carries
+were parsed and dropped). Kept for `C01R.font_differences_pinned_counterexample`. -/
+def decodeShownOld (res : Res) (ext : Ext) (fonts : Option Dict) (cur : Str) (data : Str) : Except Err Str :=
+  match fonts.bind fun fd => registered res fd cur with
+  | some f =>
+    match FontDecode.decodeStringOld ext.nfc f data with
+    | some s => .ok s
+    | none => .error .unsupported
+  | none =>
+    if cur = [] then .ok (FontDecode.showTextNoFont ext.nfc data)
+    else
+      match FontDecode.decodeStringOld ext.nfc defaultFont data with
       | some s => .ok s
       | none => .error .unsupported
 
